@@ -45,6 +45,13 @@ EXC = {
     "LvFalsy": LvFalsy,
     "OSError": OSError,
     "ZeroDivisionError": ZeroDivisionError,
+    "MemoryError": MemoryError,
+    "RecursionError": RecursionError,
+    "StopIteration": StopIteration,
+    "TimeoutError": TimeoutError,
+    "GeneratorExit": GeneratorExit,
+    "EOFError": EOFError,
+    "BrokenPipeError": BrokenPipeError,
 }
 
 
@@ -411,6 +418,20 @@ def _run_subs(ex, spec, tid):
         _log("nested_running", tid=tid, n=len(futs))
         time.sleep(spec.get("hang", 120))
     return res
+
+
+class Stateful:
+    """A callable whose behaviour depends on state the parent changes between two submissions of the SAME object
+    (submitted through loky.wrap_non_picklable_objects): every submission must see the state of its own submission."""
+
+    def __init__(self, k=0):
+        self.k = k
+
+    def effective(self, spec):
+        return dict(spec, x=[spec.get("x"), self.k])
+
+    def __call__(self, spec, tid, *extra):
+        return run(self.effective(spec), tid, *extra)
 
 
 def run(spec, tid, *extra):
